@@ -355,3 +355,129 @@ def check_functions(ctx, rep, rule, fns):
         if not res:
             rep.held(rule, fn, 'row buffers of ' + fn.name, 'every container is built anew between two deliveries', fn.node)
     return n
+
+
+# ------------------------------------------------------- None as a sentinel
+def _none_guarded(pm, node, name, stop):
+    """is `node` only evaluated when `name` is known not to be None?"""
+    cur = node
+    while id(cur) in pm and cur is not stop:
+        p = pm[id(cur)]
+        if isinstance(p, ast.BoolOp):
+            idx = [i for i, v in enumerate(p.values) if v is cur]
+            before = p.values[:idx[0]] if idx else []
+            for b in before:
+                t = norm(b)
+                if isinstance(p.op, ast.And) and t in ('%s is not None' % name, name):
+                    return True
+                if isinstance(p.op, ast.Or) and t in ('%s is None' % name, 'not %s' % name):
+                    return True
+        if isinstance(p, (ast.If, ast.IfExp, ast.While)):
+            t = norm(p.test)
+            body = p.body if isinstance(p.body, list) else [p.body]
+            orelse = p.orelse if isinstance(p.orelse, list) else [p.orelse]
+            inbody = any(cur is b for b in body)
+            inelse = any(cur is b for b in orelse)
+            pos = ('%s is not None' % name, name)
+            neg = ('%s is None' % name, 'not %s' % name)
+            conj = [norm(v) for v in p.test.values] if isinstance(p.test, ast.BoolOp) and isinstance(p.test.op, ast.And) else [t]
+            if inbody and any(c in pos for c in conj):
+                return True
+            if inelse and t in neg:
+                return True
+        cur = p
+    return False
+
+
+def none_sentinel_collisions(fn_node):
+    """[(compare node, name, init line)]: a local that starts as None ("nothing
+    seen yet") is compared with == / != inside a loop against a per-row value,
+    without first testing the local for None.  None is a legal cell and key
+    value, so the first row (or every row) that carries None is taken for
+    "same as before" / "already seen"."""
+    from .absint import parent_map
+    inits = {}
+    for n in _walk(fn_node):
+        if isinstance(n, ast.Assign) and isinstance(n.value, ast.Constant) and n.value.value is None:
+            for t in n.targets:
+                if isinstance(t, ast.Name):
+                    inits.setdefault(t.id, n.lineno)
+    if not inits:
+        return []
+    pm = parent_map(fn_node)
+    out = []
+    for loop in [n for n in _walk(fn_node) if isinstance(n, (ast.For, ast.While))]:
+        for n in _walk(loop):
+            if isinstance(n, ast.Compare) and len(n.ops) == 1 and isinstance(n.ops[0], (ast.Eq, ast.NotEq)):
+                for side, other in ((n.left, n.comparators[0]), (n.comparators[0], n.left)):
+                    if isinstance(side, ast.Name) and side.id in inits and inits[side.id] < loop.lineno:
+                        if isinstance(other, ast.Constant) or (isinstance(other, ast.Call) and norm(other.func) == 'len'):
+                            continue
+                        # re-bound to something else between the initialisation and the loop?
+                        rebound = [a for a in _walk(fn_node) if isinstance(a, ast.Assign) and
+                                   any(isinstance(t, ast.Name) and t.id == side.id for t in a.targets) and
+                                   inits[side.id] < a.lineno < loop.lineno and
+                                   not (isinstance(a.value, ast.Constant) and a.value.value is None)]
+                        if rebound:
+                            continue
+                        if _none_guarded(pm, n, side.id, loop):
+                            continue
+                        out.append((n, side.id, inits[side.id]))
+    seen = set()
+    res = []
+    for n, name, line in out:
+        if id(n) not in seen:
+            seen.add(id(n))
+            res.append((n, name, line))
+    return res
+
+
+_SENT_BAD = '''
+def bad(it, lookup):
+    prev = found = None
+    for row in it:
+        k = row[0]
+        if k != prev:
+            found = lookup.get(k)
+            prev = k
+        yield row, found
+'''
+_SENT_GOOD = '''
+def good(it, lookup):
+    prev = found = None
+    for row in it:
+        k = row[0]
+        if prev is None or k != prev[0]:
+            found = lookup.get(k)
+            prev = (k,)
+        yield row, found
+
+def good_guarded(it):
+    prev = None
+    n = 0
+    for row in it:
+        if prev is not None and row == prev:
+            n += 1
+        prev = row
+    yield n
+'''
+
+
+def check_sentinels(ctx, rep, rule, fns):
+    from .loader import AnalysisError
+    for src, want in ((_SENT_BAD, True), (_SENT_GOOD, False)):
+        for f in ast.parse(src).body:
+            if bool(none_sentinel_collisions(f)) != want:
+                raise AnalysisError('None-sentinel self-check failed on %s' % f.name)
+    n = 0
+    for fn in fns:
+        n += 1
+        res = none_sentinel_collisions(fn.node)
+        for node, name, line in res:
+            rep.violated(rule, fn, 'sentinel %s: %s' % (name, norm(node)),
+                         '`%s` starts as None (line %d, "nothing yet") and is compared with `%s` before any test for None: '
+                         'None is a legal key / cell value, so a row that carries None is mistaken for "same as the previous '
+                         'one" and whatever the branch would have computed for it is skipped' % (name, line, norm(node)), node)
+        if not res:
+            rep.held(rule, fn, 'None sentinels of ' + fn.name, '', fn.node)
+    return n
